@@ -14,7 +14,12 @@ def rand_string(rng, length=None):
     if length is None:
         r = rng.random()
         length = rng.choice([18, 19, 20, 21]) if r < 0.2 else rng.choice([0, 1, 1, 2, 3, 5, 8, 12, 17, 22])
-    if rng.random() < 0.5:
+    r = rng.random()
+    if r < 0.08:
+        # otherwise plain strings that end / start with a line break or control character
+        base = "".join(rng.choice("abcXYZ019 _.:/+-") for _ in range(max(0, min(length, 17) - 1)))
+        return rng.choice([base + "\n", base + "\r", base + "\t", "\n" + base, base + "\n\n", base + " ", base + "\x0b", base + "\x1c", base + "\u2028"])
+    if r < 0.5:
         return "".join(rng.choice("abcdefghij") for _ in range(length))
     return "".join(rng.choice(ALPHA) for _ in range(length))
 
